@@ -14,6 +14,7 @@ import (
 	"fmt"
 	mrand "math/rand"
 	"strings"
+	"sync"
 	"time"
 
 	fdo "github.com/fido-device-onboard/go-fdo"
@@ -362,7 +363,25 @@ func (e *Exec) Do(op Op) Event {
 	case "newtoken":
 		protos := []protocol.Protocol{protocol.DIProtocol, protocol.TO0Protocol, protocol.TO1Protocol, protocol.TO2Protocol}
 		var tok string
-		tok, err = db.NewToken(bg, protos[op.T%4])
+		if len(e.tokens) == 0 {
+			// the first token of a brand-new database is minted while two other sessions start
+			// too (a server that has just come up): whichever wins, every issued token is valid
+			var wg sync.WaitGroup
+			start := make(chan struct{})
+			for i := 0; i < 2; i++ {
+				wg.Add(1)
+				go func(i int) {
+					defer wg.Done()
+					<-start
+					_, _ = db.NewToken(bg, protos[i%4])
+				}(i)
+			}
+			close(start)
+			tok, err = db.NewToken(bg, protos[op.T%4])
+			wg.Wait()
+		} else {
+			tok, err = db.NewToken(bg, protos[op.T%4])
+		}
 		e.tokens[op.T] = tok
 	case "invalidate":
 		err = db.InvalidateToken(e.ctxFor(op.T, op.Cls, ev.I))
@@ -511,8 +530,25 @@ func RandomHistory(rng *mrand.Rand, n int) []Op {
 	var ops []Op
 	minted := map[int]bool{}
 	classes := []string{"live", "live", "live", "live", "none", "damaged", "foreign"}
+	// every fourth history concentrates on the rendezvous blobs of several GUIDs (register, look
+	// up, let one expire, look the others up, reopen): sequences the uniform draw hardly produces
+	rvFocus := rng.Intn(4) == 0
 	for len(ops) < n {
 		r := rng.Intn(100)
+		if rvFocus && len(ops) > 0 && rng.Intn(5) != 0 {
+			g := GuidIDs[rng.Intn(len(GuidIDs))]
+			switch {
+			case r < 35:
+				ops = append(ops, Op{Op: "setblob", G: g, V: ValIDs[rng.Intn(len(ValIDs))]})
+			case r < 72:
+				ops = append(ops, Op{Op: "blob", G: g})
+			case r < 90:
+				ops = append(ops, Op{Op: "expire", G: g})
+			default:
+				ops = append(ops, Op{Op: "reopen"})
+			}
+			continue
+		}
 		t := 1 + rng.Intn(3)
 		g := GuidIDs[rng.Intn(len(GuidIDs))]
 		v := ValIDs[rng.Intn(len(ValIDs))]
